@@ -68,7 +68,7 @@ def ob_compose_identity(ctx, D, shape, a, N):
     ctx.eq(compose_flows(z, z, align_corners=a), z, "compose(0, 0) == 0")
 
 
-def ob_bracket_algebra(ctx, D, shape, mode):
+def ob_bracket_algebra(ctx, D, shape, mode, sigma=None, spacing=None):
     from deepali.core.flow import lie_bracket
 
     u = _free(ctx, "u", 1, D, shape)
@@ -77,18 +77,28 @@ def ob_bracket_algebra(ctx, D, shape, mode):
     al = ctx.reals("al", 1.5, nice=(-4, 4))
     be = ctx.reals("be", -0.75, nice=(-4, 4))
     kw = dict(mode=mode)
+    if sigma is not None:
+        kw["sigma"] = sigma
+    if spacing is not None:
+        kw["spacing"] = spacing
+        # units: derivatives with spacing s are derivatives with unit spacing divided by s
+        ctx.eq(lie_bracket(v1, u, **kw), lie_bracket(v1, u, **dict(kw, spacing=1.0)) / spacing, f"[{mode}] bracket scales with 1 / spacing")
+    mode = f"{mode}, sigma={sigma}, spacing={spacing}"
     ctx.eq(lie_bracket(v1, u, **kw), -lie_bracket(u, v1, **kw), f"[{mode}] [v, u] == -[u, v]")
     ctx.eq(lie_bracket(al * v1 + be * v2, u, **kw), al * lie_bracket(v1, u, **kw) + be * lie_bracket(v2, u, **kw), f"[{mode}] linear in the first argument")
     ctx.eq(lie_bracket(u, al * v1 + be * v2, **kw), al * lie_bracket(u, v1, **kw) + be * lie_bracket(u, v2, **kw), f"[{mode}] linear in the second argument")
     ctx.eq(lie_bracket(u, u, **kw), torch.zeros_like(u), f"[{mode}] [u, u] == 0")
 
 
-def ob_bch_structure(ctx, D, shape, terms):
-    from deepali.core.flow import compose_svfs, lie_bracket
+def ob_bch_structure(ctx, D, shape, terms, kw=None):
+    from deepali.core.flow import compose_svfs
+    from deepali.core.flow import lie_bracket as _lb
 
+    kw = kw or {}
+    lie_bracket = lambda a, b: _lb(a, b, **kw)
     u = _free(ctx, "u", 1, D, shape)
     v = _free(ctx, "v", 1, D, shape)
-    w = compose_svfs(u, v, bch_terms=terms)
+    w = compose_svfs(u, v, bch_terms=terms, **kw)
     ref = v + u
     vu = lie_bracket(v, u)
     if terms >= 1:
@@ -101,7 +111,7 @@ def ob_bch_structure(ctx, D, shape, terms):
     if terms >= 4:
         # 1/48 ([[v,[v,u]],u] - [v,[u,[v,u]]]); the first bracket alone with 4 terms; both equal -2 [u,[v,[v,u]]] / 48
         ref = ref - lie_bracket(u, vvu) * ((1 if terms == 4 else 2) / 48)
-    ctx.eq(w, ref, f"compose_svfs(bch_terms={terms}) == BCH series with the documented coefficients")
+    ctx.eq(w, ref, f"compose_svfs(bch_terms={terms}, {kw}) == BCH series with the documented coefficients, brackets with the same options")
 
 
 def ob_bch_commuting(ctx, D, shape, terms, kind):
@@ -169,6 +179,11 @@ def obligations(tier: str, seed: int):
             if D == 3 and tier == "quick" and mode not in ("forward_central_backward", "central"):
                 continue
             obs.append((f"bracket-algebra-D{D}-{mode}", ob_bracket_algebra, dict(D=D, shape=bshape, mode=mode)))
+        obs.append((f"bracket-algebra-D{D}-gaussian-sigma", ob_bracket_algebra, dict(D=D, shape=bshape, mode="gaussian", sigma=0.75)))
+        obs.append((f"bracket-algebra-D{D}-central-sigma-spacing", ob_bracket_algebra, dict(D=D, shape=bshape, mode="central", sigma=0.75, spacing=0.5)))
+        for kw in (dict(spacing=0.5), dict(sigma=0.75), dict(mode="forward", spacing=2.0)):
+            tag = "-".join(f"{k}{v}" for k, v in kw.items())
+            obs.append((f"bch-structure-D{D}-t2-{tag}", ob_bch_structure, dict(D=D, shape=(3, 3) if D == 2 else (3, 3, 3), terms=2, kw=kw)))
         for terms in range(6):
             if D == 2 or tier == "thorough":
                 obs.append((f"bch-structure-D{D}-t{terms}", ob_bch_structure, dict(D=D, shape=(3, 3) if D == 2 else (3, 3, 3), terms=terms)))
